@@ -207,8 +207,8 @@ type obs struct {
 	Render   string
 	ErrFiles map[string]int // file -> number of error-level diagnostics located in it
 	NDiag    int
-	Executed int // queries executed in this run (per incremental.WithTimings)
-	Reused   int // queries answered from the cache
+	Executed int // queries memoised by this run (Executor.Keys after - before)
+	Reused   int // queries still memoised when the run started (Executor.Keys before)
 }
 
 type engine struct {
@@ -217,7 +217,12 @@ type engine struct {
 	mem  *memOpener
 	op   source.Opener
 	wss  map[string]source.Workspace
+	stat bool // count Executor.Keys() around every Link run
 }
+
+// keyStats: count Executor.Keys() around every Link run (incremental.WithTimings is not wired to
+// the root task in this version of the executor, so it reports nothing).
+var keyStats = true
 
 func newEngine(par int) *engine {
 	mem := &memOpener{files: map[string]*source.File{}}
@@ -287,21 +292,21 @@ func (e *engine) compile(paths []string, withFDS bool, timeout time.Duration) ob
 		o.ErrFiles = map[string]int{}
 		ctx, cancel := context.WithTimeout(context.Background(), timeout)
 		defer cancel()
-		timings := map[any]time.Duration{}
 		ws := e.workspace(paths)
-		res, rep, err := incremental.Run(incremental.WithTimings(ctx, timings), e.exec, queries.Link{
+		before := 0
+		if e.stat {
+			before = len(e.exec.Keys()) // memoised queries that survived the evictions
+		}
+		res, rep, err := incremental.Run(ctx, e.exec, queries.Link{
 			Opener: e.op, Session: e.sess, Workspace: ws,
 		})
 		if err != nil {
 			o.Err = "run error: " + firstLine(err.Error())
 			return
 		}
-		for _, d := range timings {
-			if d == 0 {
-				o.Reused++
-			} else {
-				o.Executed++
-			}
+		if e.stat {
+			o.Reused = before
+			o.Executed = len(e.exec.Keys()) - before
 		}
 		o.Success = true
 		if res[0].Fatal != nil {
@@ -471,7 +476,8 @@ func compare(inc, fr *obs, cyclic bool, tainted map[string]bool) (string, string
 		}
 	}
 	if inc.Render != fr.Render {
-		return "diagnostics", fmt.Sprintf("%d vs %d diagnostics; %s", inc.NDiag, fr.NDiag, diffLines(inc.Render, fr.Render))
+		return "diagnostics", fmt.Sprintf("%d vs %d diagnostics; %s\n--- incremental report:\n%s\n--- fresh report:\n%s", inc.NDiag, fr.NDiag,
+			diffLines(inc.Render, fr.Render), clip(inc.Render), clip(fr.Render))
 	}
 	if inc.FDS != fr.FDS {
 		return "fds", fmt.Sprintf("incremental %q vs fresh %q", inc.FDS, fr.FDS)
@@ -567,6 +573,7 @@ func main() {
 	withFDS := flag.Bool("fds", true, "also run queries.FDS")
 	timeoutS := flag.Int("timeout", 60, "per-compile timeout, seconds")
 	maxPer := flag.Int("maxper", 25, "disagreements reported per class")
+	flag.BoolVar(&keyStats, "keystats", true, "count memoised queries before/after every incremental run")
 	noEvict := flag.Bool("no-evict", false, "SELF-TEST: do not evict (the check must then fire)")
 	dropChanged := flag.Bool("drop-changed", false, "SELF-TEST: ignore the last path of every multi-path changed set")
 	flag.Parse()
@@ -672,6 +679,7 @@ func main() {
 func replay(c *histCase, raw []byte, par int, sk *sink, ct *counters,
 	fresh func(map[string]string, []string, int, bool) obs, withFDS bool, timeout time.Duration, noEvict, dropChanged bool) {
 	eng := newEngine(par)
+	eng.stat = keyStats
 	cur := map[string]fileV{}   // the driver's view of the abstract workspace
 	texts := map[string]string{} // path -> text of the files that exist
 	for id, f := range c.Origin.Ws {
